@@ -1,7 +1,7 @@
 SPECIFICATION Spec
 CONSTANT Types = {"state", "povm", "gate", "mprocess"}
 CONSTANT Shapes = {"q", "t", "qq", "qt"}
-CONSTANT Classes = {"interior", "pure", "rankdef", "mixedrank"}
+CONSTANT Classes = {"interior", "pure", "rankdef", "mixedrank", "faint"}
 CONSTANT Ks = {2, 5, 8, 10, 13}
 CONSTANT Emit = FALSE
 CONSTANT EmitLags = {0, 1, 3}
